@@ -59,6 +59,11 @@ PwMeansDF(tk, re, ca, cb) ==
 \* weight non-missing on a, b, both;  p_x = S_x / N_x;  df = N_a + N_b - N_ab:
 \*     t = (colprop_b - colprop_a) / sqrt((p_a(1-p_a) + p_b(1-p_b) + 2 p_a p_b - 2 p_ab) / df)
 \* and the p-value is the Student-t tail with df - 2 degrees of freedom.
+\* The variance is a signed sum of four terms that can cancel EXACTLY (e.g. b selected
+\* by precisely the respondents who select a): in floating point the sum is then 0 or a
+\* rounding residue of either sign, so the quotient carries the marker "cancelling" and
+\* what is reported at an exactly-zero variance is left open (NaN, 0, +-inf or a huge
+\* value are all roundings of the same formula).
 OvWt(tk, re, a, b, valid) ==
   SumResp(LAMBDA k :
     LET q == k.p[VarOf(DimC)] IN
@@ -76,7 +81,7 @@ PwOvT(tk, re, ca, cb) ==
            V == Sub(Add(Add(Mul(pa, Sub(One, pa)), Mul(pb, Sub(One, pb))), Mul(R(2), Mul(pa, pb))),
                     Mul(R(2), pab))
            d == Sub(ColProp(tk, re, cb), ColProp(tk, re, ca))
-       IN  <<SignR(d), Sq(d), Div(V, OvDF(tk, re, a, b))>>
+       IN  <<SignR(d), Sq(d), Div(V, OvDF(tk, re, a, b)), "cancelling">>
 PwOvDF(tk, re, ca, cb) == Sub(OvDF(tk, re, ca.item, cb.item), R(2))
 
 PwOvTMat(tk, RS, CS, sel) ==
